@@ -29,7 +29,7 @@ PROPS = {
         'assumptions': ['topic names starting with $ are outside the property'],
     },
     'C15': {
-        'engines': [('ids', 200, 2000), ('idconc', 1, 1), ('initid', 2000, 200000), ('apipub', 150, 3000)],
+        'engines': [('ids', 200, 2000), ('idconc', 1, 1), ('initid', 2000, 200000), ('apipub', 150, 3000), ('rhandle', 1, 1)],
         'rule': 'id sequences from counter values around every wrap point (uint16 and uint32) compared with the model; full 65535-call '
                 'windows checked for duplicates; concurrent callers (2..64 goroutines) checked for duplicates and zero',
         'partial': 'the statement "unique among outstanding requests" is proved for requests issued within the last 65535 issues '
@@ -52,7 +52,7 @@ PROPS = {
                         'transport writes succeed (a failing ack write ends the connection; covered by C11/C16)'],
     },
     'C19': {
-        'engines': [('err', 400, 4000), ('rhandle', 1, 1)],
+        'engines': [('err', 400, 4000), ('rhandle', 1, 1), ('retry', 120, 1000)],
         'rule': 'error chains built with the real wrappers (wrapError, wrapErrorWithRetry via hooks; fmt %w; ConnectionError; '
                 'RequestTimeoutError from requestContext; a struct with an Err field) over 16 sentinels; targets = every node, every '
                 'sentinel, fresh errors, io.EOF; all chains up to depth 4 in the thorough tier, random depth <= 12 otherwise',
